@@ -7,6 +7,18 @@ CHECKS = {
    text="Seeded exploration: thousands of simulated runs in which random Node/NodeClaim/Pod/DaemonSet histories are applied to a simulated API server while the REAL state informers and state.Cluster run under seeded delivery orders, cache lag and reconcile interleavings; at every quiescent point the incremental state is compared with a fresh state.Cluster built by the same real informers from the API objects. Sampling, not proof; the right level because the property quantifies over unbounded histories and delivery orders.",
    note="Trusted: simulator stubs for API server, cache, work queues (sim/store.go, cache.go, manager.go); the from-scratch path of state.Cluster itself (differential oracle). Generator restrictions listed in DESIGN.md 6/C11.",
    technique="deterministic simulation (synctest bubble, seeded scheduler) + differential oracle vs fresh recomputation"),
+ "C14": dict(level="fault_enumeration", design="6 C14",
+   text="Single-fault sweep plus seeded exploration: the REAL nodeclaim.lifecycle controller (launch, registration, initialization, liveness, finalize) runs against a simulated provider, kubelet and API server. For seeded fault-free baselines every fault-eligible API / provider call k is re-run with exactly one fault at k in modes error-before, error-after (lost response) and crash-after; thousands of further runs draw random fault mixes, cache lag, slow responses, restarts and clock jumps. Oracles at the seams: <=1 acknowledged provider Create per UID per incarnation, finalizer on the server object at Create, Launched/Registered/Initialized only forward and each justified by the Node version the deciding task read, capacity error => Delete.",
+   note="Trusted: simulator stubs (API server, cache, provider, kubelet, clock). Preemption happens at seam calls only. Duplicate creates across a crash are counted, not flagged (the property's wording).",
+   technique="deterministic simulation + single-fault sweep over every seam call (err-before / err-after / crash-after)"),
+ "C16": dict(level="exploration", design="6 C16",
+   text="Seeded exploration in the `life` profile: expiration, NodeClaim garbage collection and the liveness check (real controllers) run while instances vanish, provider listings lag, nodes flap Ready, the clock jumps onto thresholds and API / provider reads fail. Every Delete(NodeClaim) is attributed to its controller and judged against what that task was actually told (read-set rule): expiry time reached, instance absent from the listing it received AND node lookup succeeded with no Ready node, launch/registration timeout elapsed. The node-repair clause is decided in the `term` profile when built.",
+   note="Trusted: simulator stubs. Node repair (20% breaker) not yet covered by this check.",
+   technique="deterministic simulation, seeded fault injection on reads, read-set oracle at the Delete seam"),
+ "C20": dict(level="exploration", design="6 C20",
+   text="Seeded exploration: real Registration / Liveness reconcilers and the registration-health controller record launch outcomes for 1-2 pools over 20-120 simulated minutes with nodes that never register, resets by NodePool edits, restarts and re-hydration. Hook H2 reports each recorded outcome; a 4-slot window model fed with that order is compared with State.Status, with State.DryRun for both next outcomes, and with the NodeRegistrationHealthy value the reconcile wrote. Probe window-wrapped must be hit.",
+   note="Trusted: simulator stubs; hook H2 (verif tag) reports outcomes. Preemption between DryRun and Update exists only where a seam call lies between them.",
+   technique="deterministic simulation + sequential reference model (window of last four outcomes)"),
 }
 NA = [
  ("C12", "pure function of operator/value inputs; no schedule, clock, fault or history can influence it (DESIGN.md 6/C12)"),
